@@ -39,6 +39,11 @@ func relInput(c *core.Ctx, p *population, idx int) (data []byte, desc string, fi
 		}
 		d, ds := gen.Shape(r)
 		return d, ds, -2
+	case k == 9 && r.Bool():
+		// a fresh XMP packet (values at the edges of the reader's look-ahead windows included):
+		// what is buffered behind a token depends on how the reader delivers
+		x := gen.GenXMPRec(r, 60, 1030).Serialise(r, gen.RandXMPStyle(r, false), 0)
+		return x, fmt.Sprintf("xmp packet len=%d", len(x)), -2
 	case k < 4:
 		return f.Data, "file=" + f.Name, fi
 	case k < 6:
@@ -159,6 +164,27 @@ func (e *C08) Run(c *core.Ctx, idx int) {
 				}
 				c.Rec.Count("short_reads", int64(rs.ShortReads))
 			}
+		}
+		// the same stream from a reader that now and then delivers nothing and no error (legal per
+		// the io.Reader contract, if discouraged): it is still the same byte stream
+		{
+			rs := mon.NewRS(data)
+			rs.Sched = [][]int{{4096}, {7, 300}, {1, 2, 3}, nil, {5, 6, 7}, {65536}}[idx%6]
+			rs.ZeroEvery = 2 + idx%4
+			what := fmt.Sprintf("sched=%v every %d. read delivers (0, nil)", rs.Sched, rs.ZeroEvery)
+			c.SetPhase("entry=" + ent.Name + " " + what + " " + desc)
+			imagemeta.VerifResetState()
+			var got string
+			pk, key, text := core.Guard(func() { got = ent.Run(rs) })
+			c.Rec.Eval(1)
+			if pk {
+				c.Rec.Violation("chunk:"+key, fmt.Sprintf("%s panicked under %s but returned for the in-memory reader (%s): %s", ent.Name, what, desc, firstLineOf(text)),
+					map[string]any{"entry": ent.Name, "schedule": rs.Sched, "zero_every": rs.ZeroEvery, "input": desc, "panic": text})
+			} else if got != ref {
+				c.Rec.Violation("chunk:zero:"+ent.Name, fmt.Sprintf("%s differs under %s (%s): %s", ent.Name, what, desc, firstDiff(ref, got)),
+					map[string]any{"entry": ent.Name, "schedule": rs.Sched, "zero_every": rs.ZeroEvery, "input": desc, "in_memory": clipStr(ref, 1500), "chunked": clipStr(got, 1500)})
+			}
+			c.Rec.Count("zero_reads", int64(rs.ZeroReads))
 		}
 	}
 	if c.Rec.WantSample() && idx%29 == 0 {
